@@ -108,6 +108,24 @@ def check_vector(v):
                 if o != ("ok", expc):
                     bad.append({"what": "count_kmers differs from the number of windows per k-mer", "tags": dict(tags, op="count_kmers"),
                                 "vector": v, "case": {"texts": texts, "k": k}, "expected": str(expc), "observed": str(o)[:300]})
+            # the same collection repeated until it holds more than a million windows (MC_C13!CountsOfRepeat: m times the counts)
+            nwin = sum(expc.values())
+            if v.get("_big") and ai == 0 and not view and k == 2 and nwin >= 3:
+                from bionumpy.encoded_array import EncodedArray, EncodedRaggedArray
+                m = 1000000 // nwin + 2
+                while (m * nwin) % 1000000 == 0:
+                    m += 1
+
+                def bigcounts():
+                    flat = np.tile(np.asarray(seqs.ravel().raw()), m)
+                    big = EncodedRaggedArray(EncodedArray(flat, seqs.encoding), np.tile(np.asarray(seqs.lengths), m))
+                    ec = count_kmers(big, k)
+                    return {tuple(_digits(code, k, A)): int(c) for code, c in enumerate(np.asarray(ec.counts).ravel().tolist()) if c}
+                o = outcome(bigcounts)
+                n += 1
+                if o != ("ok", {km: m * c for km, c in expc.items()}):
+                    bad.append({"what": "count_kmers of the collection repeated %d times is not %d times its counts" % (m, m), "tags": dict(tags, op="count_kmers-repeated"),
+                                "vector": v, "case": {"texts": texts, "k": k, "repeats": m}, "expected": str({km: m * c for km, c in expc.items()}), "observed": str(o)[:300]})
             # matching
             pat = "".join(alpha[mp[c]] for c in v["pats"][k - 1])
             o = outcome(lambda: [[bool(x) for x in row] for row in bnp.match_string(seqs, bnp.as_encoded_array(pat, _enc(alpha))).tolist()])
@@ -209,9 +227,11 @@ def run(ctx):
     quick = ctx.tier == "quick"
     consts = {"NRows": 2, "MaxLen": 4, "W": 4, "Letters": [0, 1]} if quick else {"NRows": 3, "MaxLen": 4, "W": 5, "Letters": [0, 1]}
     res = ctx.tlc("MC_C13", spec="Spec", constants=consts,
-                  invariants=["RowLocal", "WindowCount", "CountsSum", "MinimizerIsAKmer", "Emit"], properties=["Local"], coverage=True)
+                  invariants=["RowLocal", "WindowCount", "CountsSum", "CountsOfRepeat", "MinimizerIsAKmer", "Emit"], properties=["Local"], coverage=True)
     ctx.require_actions(res, "MC_C13", ["NewRow", "AddLetter"])
     vectors = res.vectors
+    for i, v in enumerate(vectors):
+        v["_big"] = (i % (97 if quick else 23) == 5)        # a few states stand for inputs of more than a million windows
     ctx.sample({k: vectors[40][k] for k in ("rows", "kmers", "match")})
     ctx.absorb(core.pmap(check_vector, vectors, chunk=20))
     ntr = 400 if quick else 4000
